@@ -378,10 +378,14 @@ class DilCase:
         inflight = [len(l.a.outq), len(l.b.outq)]
         mode = self.P.get("kill_notify", "both")
         if mode == "tape":
-            mode = self.tape.choice(["both", "both", "leader", "follower"])
+            mode = self.tape.choice(["both", "both", "leader", "follower"] + (["none"] if self.P.get("silent_kills") else []))
         self.kill_info.append(dict(step=self.step, unacked=depth, inflight=inflight, notify=mode))
         li = self.leader_index()
-        if mode == "both" or li is None:
+        if mode == "none":
+            # a silent stall (NAT timeout, cable pulled): nobody's TCP stack reports anything; the Leader's
+            # keep-alive has to notice
+            l.break_(notify=())
+        elif mode == "both" or li is None:
             l.break_()
         else:
             # a half-dead link: only one side's TCP stack reports the loss
